@@ -83,6 +83,22 @@ class Check:
         self.rules.append(r)
         return r
 
+    def open_issues(self):
+        """What finish() would report as violations (floors included, known findings excluded) — without changing anything."""
+        known = load_known()
+        kf = {(k["property"], k["key"]) for k in known.get("findings", [])}
+        out = []
+        for r in self.rules:
+            if r.floor_n is not None and r.count() < r.floor_n:
+                out.append((r.rid, "floor", "undecidable"))
+            for inst in r.instances:
+                if inst["status"] in ("violation", "undecidable"):
+                    full_key = "%s:%s" % (r.rid, inst["key"])
+                    if (self.pid, full_key) in kf and inst["status"] == "violation":
+                        continue
+                    out.append((r.rid, inst["key"], inst["status"]))
+        return out
+
     def finish(self):
         known = load_known()
         kf = {(k["property"], k["key"]): k for k in known.get("findings", [])}
